@@ -1,2 +1,22 @@
-import DropletsVerif.Basic
-def main : IO Unit := IO.println DV.hello
+/- Line-protocol driver: one request per line, one answer per line.  Imports only the
+   import-free models and generated definitions, so it is compiled to a native executable. -/
+import DropletsVerif.Driver.C12
+
+open DV.Drv
+
+def dispatch (line : String) : String :=
+  match (line.splitOn " ").filter (· ≠ "") with
+  | "c12" :: args => handleC12 args
+  | _ => "bad-op"
+
+partial def loop (h : IO.FS.Stream) (out : IO.FS.Stream) : IO Unit := do
+  let line ← h.getLine
+  if line.isEmpty then return ()
+  let l := if line.endsWith "\n" then (line.dropEnd 1).toString else line
+  out.putStrLn (dispatch l)
+  loop h out
+
+def main : IO Unit := do
+  let out ← IO.getStdout
+  loop (← IO.getStdin) out
+  out.flush
